@@ -83,6 +83,21 @@ def run_scenario(sc):
             return True
         out['Database'] = audit.classify(rt.forked(go, timeout=300))
 
+        # a history: the table is sound when the data set is created, the missing entries are written into it
+        # AFTERWARDS (same layout, same types), then an estimation object is built on it
+        kinds = {c for r in sc['table'] for c in r}
+        if sc['table'] and 'str' not in kinds:
+            def go_later():
+                df = pd.DataFrame([[1.5 for _ in r] for r in sc['table']], columns=['c1', 'c2'])
+                d = db.Database('t', df)
+                for i, r in enumerate(sc['table']):
+                    for j, c in enumerate(r):
+                        if c == 'nan':
+                            d.data.iloc[i, j] = float('nan')
+                bio.BIOGEME(d, ex.Beta('b', 0.5, None, None, 0) * ex.Variable('c1') + ex.Variable('c2'))
+                return True
+            out['BIOGEME on a data set edited after its creation'] = audit.classify(rt.forked(go_later, timeout=300))
+
         def go2():
             cell = {'num': 1.5, 'nan': float('nan'), 'str': 'abc'}
             rows = [[cell[c] for c in r] for r in sc['table']]
